@@ -640,6 +640,11 @@ def gen_true_color(rng):
                 nodata = int(nodata)
     if dt != 'float32' and rng.random() < 0.15:
         nodata = rng.choice([0.1, 1.3, 2.7])                              # not float32-representable: only non-float32 rasters
+    if dt.startswith('float') and rng.random() < 0.35:
+        # NaN red cells together with a negative / zero / positive nodata: alpha must be 0 on NaN whatever nodata is
+        for _ in range(rng.randint(1, 2)):
+            bands[0][rng.randrange(rows)][rng.randrange(cols)] = float('nan')
+        nodata = rng.choice([-1, -3.0, -9999, -0.5, 0, 1, nodata])
     c = rng.choice([10.0, 10, 5.0, 1.0, 20.0, 0.0])
     th = rng.choice([0.125, 0.5, 0.0, 0.25, 1.0, 0.3])
     return dict(fn='true_color', dtypes=[dt] * 3, kind=kind, bands=bands, params=dict(nodata=nodata, c=c, th=th))
